@@ -89,6 +89,9 @@ def maybe_cb(rng, tag, p=0.3) -> Optional[CbDesc]:
     md = {"metadata_type": tag, "n": rng.randint(0, 9)} if rng.random() < 0.8 else None
     if r < 0.2:
         return CbDesc(tag, md, rename=None, add_arg=rng.choice([99, "cb"]))
+    if r < 0.4 and "." in tag:
+        # the callback renames the method (the emitted call names something the class does not declare)
+        return CbDesc(tag, md, rename=tag.split(".")[1] + "_cal", add_arg=rng.choice([None, None, 7]))
     return CbDesc(tag, md)
 
 
@@ -622,5 +625,19 @@ class TypedGen:
                 b = TExpr(f"({a.src}, {c.src})", f"({a.norm}, {c.norm})", "Any", a.log + c.log, a.md + c.md, a.refusal or c.refusal)
             else:
                 a, c = self.scalar(scope, d - 1, "float"), self.scalar(scope, d - 1, "int")
-                b = TExpr(f"{{'pt': {a.src}, 'n': {c.src}}}.pt", f"{{'pt': {a.norm}, 'n': {c.norm}}}.pt", a.ty, a.log + c.log, a.md + c.md, a.refusal or c.refusal)
+                # projections out of a literal: the type is the one recorded for that element when the literal was visited
+                shape = rng.choice(["attr", "attr", "key", "key2", "tup0", "tup1", "tupT"])
+                if shape == "attr":
+                    pre, post, ty = "{'pt': %s, 'n': %s}", ".pt", a.ty
+                elif shape == "key":
+                    pre, post, ty = "{'pt': %s, 'n': %s}", "['pt']", a.ty
+                elif shape == "key2":
+                    pre, post, ty = "{'pt': %s, 'n': %s}", "['n']", c.ty
+                elif shape == "tup0":
+                    pre, post, ty = "(%s, %s)", "[0]", a.ty
+                elif shape == "tup1":
+                    pre, post, ty = "(%s, %s)", "[1]", c.ty
+                else:
+                    pre, post, ty = "(%s, %s)", "[True]", c.ty
+                b = TExpr(pre % (a.src, c.src) + post, pre % (a.norm, c.norm) + post, ty, a.log + c.log, a.md + c.md, a.refusal or c.refusal)
         return scope_param, b
